@@ -68,6 +68,7 @@ class Gen:
         self.locked = {0: False, 1: False}
         self.live = {0: False, 1: False}
         self.stat = {}
+        self.workers = 0           # helper threads currently configured on table 0
         self.alloc = {}            # allocator id per existing object (allocator streams)
         self.exists = set()
 
@@ -154,7 +155,19 @@ class Gen:
             elif x < 0.78:
                 self.emit("m stats %d" % tid)
             elif x < 0.82:
-                if r.random() < 0.5:
+                if self.workers and r.random() < 0.6:
+                    # with helper threads a rebuild inserts in a timing-dependent order (layout not comparable cell by
+                    # cell): batch migrations only — lock_table() finishes pending migration with the helpers
+                    self.emit("m lock %d" % tid)
+                    self.emit("m iter %d" % tid)
+                    self.emit("m unlock %d" % tid)
+                elif self.workers:
+                    self.emit("m setworkers %d 0" % tid)
+                    self.workers = 0
+                elif prof == "mixed" and cfg.kind != 2 and r.random() < 0.25:
+                    self.workers = r.choice([1, 2, 3, 5])
+                    self.emit("m setworkers %d %d" % (tid, self.workers))
+                elif r.random() < 0.5:
                     self.emit("m rehash %d %d" % (tid, r.randrange(0, 9)))
                 else:
                     self.emit("m reserve %d %d" % (tid, r.choice([0, 1, 2, 5, 8, 16, 31, 32, 33, 64, 100, 200, 500])))
@@ -354,7 +367,9 @@ class Gen:
             self.emit("m iter %d" % tid)
             self.emit("m riter %d" % tid)
         elif x < 0.76:
-            if r.random() < 0.5:
+            if self.workers and tid == 0:
+                self.emit("m stats %d" % tid)
+            elif r.random() < 0.5:
                 self.emit("m rehash %d %d" % (tid, r.randrange(0, 9)))
             else:
                 self.emit("m reserve %d %d" % (tid, r.choice([0, 1, 5, 16, 33, 64, 100, 300])))
